@@ -23,9 +23,25 @@ Variable u : universe.
 Variable P : problem.
 Let U := table_provider u.
 
+(* every candidate revealed by a Requires clause is registered in the at-most-one
+   tracker of its package as soon as a second candidate of that package is known
+   (an invariant of the encoder; not needed by the theorems below, which only
+   get stronger hypotheses from it) *)
+Definition req_cand_names (db : list cl) : list (N * N) :=
+  flat_map (fun c => match ck c with
+                     | KRequires _ _ cands => map (fun x => (p_sol_name U x, x)) (concat cands)
+                     | _ => []
+                     end) db.
+
+Definition registered_ok (db : list cl) : bool :=
+  let pairs := req_cand_names db in
+  forallb (fun nx =>
+    if existsb (fun ny => N.eqb (fst ny) (fst nx) && negb (N.eqb (snd ny) (snd nx))) pairs
+    then memN (snd nx) (reg_order db (fst nx)) else true) pairs.
+
 (* the clause database is made of facts and certified learnt clauses *)
 Definition check_db (lg : log) : bool :=
-  wf_universeb u && facts_ok U P (l_db lg) && learnts_ok [] (l_db lg).
+  wf_universeb u && facts_ok U P (l_db lg) && learnts_ok [] (l_db lg) && registered_ok (l_db lg).
 
 (* the events are a legal run of the machine ending in the dumped trail *)
 Definition check_run (lg : log) : option (list ent) :=
@@ -59,7 +75,8 @@ Lemma check_sat_log_parts lg sol :
              check_sat U P (l_db lg) (tlits tr) sol = true.
 Proof.
   unfold check_sat_log, check_db, check_run. intro H.
-  apply andb_true_iff in H. destruct H as [H Hs]. apply andb_true_iff in H. destruct H as [H Hl].
+  apply andb_true_iff in H. destruct H as [H Hs]. apply andb_true_iff in H. destruct H as [H _].
+  apply andb_true_iff in H. destruct H as [H Hl].
   apply andb_true_iff in H. destruct H as [Hw Hf].
   split; [apply wf_universeb_sound; exact Hw|]. split; [exact Hf|]. split; [exact Hl|].
   destruct (run_events (pr_soft P) (l_db lg) (l_events lg) []) as [tr|]; [|discriminate].
@@ -73,6 +90,7 @@ Theorem sat_log_valid lg sol :
 Proof.
   unfold check_sat_log_lenient, check_db, check_run. intro H.
   apply andb_true_iff in H. destruct H as [H Hs]. apply andb_true_iff in H. destruct H as [H _].
+  apply andb_true_iff in H. destruct H as [H _].
   apply andb_true_iff in H. destruct H as [Hw _].
   pose proof (wf_universeb_sound u Hw) as HW.
   destruct (run_events (pr_soft P) (l_db lg) (l_events lg) []) as [tr|]; [|discriminate].
